@@ -294,4 +294,16 @@ theorem tie_parseHeaders :
       ["range header {", "if len(v) == 1 {", "mapset m", "}", "else{", "mapset m", "}", "}",
        "call headerUnmarshaler.Unmarshal", "return"] := by decide
 
+/-- `implicitValueRequiredStruct` (`structRequired`): a field under another key, a field without options that is not a
+struct, a field that is neither optional nor defaulted, an `optional=!dep` field make the nested struct required -/
+theorem tie_structRequiredShape :
+    structRequiredShape =
+      ["call tp.NumField", "for i < numFields {", "call tp.Field", "if usingDifferentKeys(tag, childField) {", "return",
+       "}", "call parseKeyAndOptions", "if err != nil {", "return", "}", "if opts == nil {",
+       "if childField.Type.Kind() != reflect.Struct {", "return", "}", "call implicitValueRequiredStruct",
+       "if err != nil {", "return", "}", "else{", "if required {", "return", "}", "}", "}", "else{",
+       "if !opts.Optional && len(opts.Default) == 0 {", "return", "}", "else{",
+       "if len(opts.OptionalDep) > 0 && opts.OptionalDep[0] == notSymbol {", "return", "}", "}", "}", "}", "return"] := by
+  rfl
+
 end GoZero.C08.Tie
